@@ -149,7 +149,7 @@ def identity_point(w, G, xp):
 
 
 def scan_value(w, rep, rule, inst, val, point, sites, where):
-    sc = Scan(point)
+    sc = Scan(point, series_limit=lambda key: w.stable.limit(w.stable.canon.get(key, key)))
     vals = val if isinstance(val, (list, tuple)) else [val]
     for v in vals:
         m = v.attrs["param"] if isinstance(v, Instance) else v
